@@ -329,3 +329,36 @@ PROPS["C11"] = dict(
 	stubs=[STUB_GROW], assumptions=["code map laid out as specified by C05: array child i at base+1+sum of earlier volumes; object entry i at base+1+sum of (2+value volume), key at +1, value at +2"],
 	harnesses=C11H,
 )
+
+# ---------------------------------------------------------------------------
+C08H = C08S + \
+       [H("print::c08_compact_%s_k%d" % (t, k), "ext", "quick", 900, "Options::compact() (concrete preset); %d children each one symbolic ASCII byte; keys any Unicode scalar value; depth 0..=2" % k, "k=%d, unwind 6" % k) for t in ("array", "object") for k in (0, 2)] + \
+       [H("print::c08_scalars_print_as_their_token", "ext", "quick", 1800, "scalar: null / any boolean / number from 8 spellings / one-character string (any scalar value); option record fully symbolic (fields 0..=3, all limits)", "unwind 17", gb=4.0)]
+
+PROPS["C08"] = dict(
+	design_ref="DESIGN.md §4 C08",
+	level_text="Bounded model checking of the function every string and key is printed with (print::string_literal) against the RFC 8785 escaping for ALL one-character strings and all two-character strings over an escape-relevant alphabet, of one container level under the compact preset (output is exactly brackets, children joined by ',' and keys followed by ':'), of the preset's inability to expand, and of the scalar tokens through Display / compact_print / print_with.",
+	level_note="Containers are decided one level at a time with arbitrary children (see C13); the recursion wrappers over heap values are read-only. Strings longer than 2 characters are outside the bound (the escaping is per character: the loop body is decided for every character).",
+	functions=["print::string_literal", "print::digit", "print::print_array", "print::print_object", "print::Options::compact", "impl Print for Value (scalars)", "impl Display for Value (scalars)", "impl Display for NumberBuf"],
+	bounds="strings <= 2 characters; one container level, k <= 2 children",
+	outside=["strings longer than 2 characters", "recursion wrappers over heap Value trees", "String::from(Value) (heap String)"],
+	stubs=[STUB_GROW], assumptions=[],
+	harnesses=[dict(h, tier="quick") for h in C08H],
+)
+
+C04R = [H(_PV + "c04_reparse_" + n, "in", "quick", 1200, "string of %s, each character any scalar value of its escaping class; both option flags" % d, "unwind %d" % u, gb=3.0)
+        for n, d, u in (("raw", "one raw-printed character", 3), ("short", "one two-character-escaped character", 3), ("u00xx", "one \\\\u00xx-escaped control character", 3),
+                        ("raw_short", "two characters (raw, short escape)", 4), ("short_u00xx", "two characters (short escape, \\\\u00xx)", 4),
+                        ("u00xx_raw", "two characters (\\\\u00xx, raw)", 4), ("raw_raw", "two raw-printed characters", 4))]
+
+PROPS["C04"] = dict(
+	design_ref="DESIGN.md §4 C04",
+	level_text="Bounded model checking of the round trip for scalar values, split into two queries that compose by substitution of equals (printer and parser are never in the same formula): (i) string_literal(s) emits exactly esc(s), the reference RFC 8785 escaping (all one-character strings); (ii) the string parser applied to esc(s) returns s (all one- and two-character strings, by escaping class); numbers and literals print as their spelling and the number/literal parsers return the spelling; print options never reach scalars (fully symbolic option record).",
+	level_note="Containers: C13 decides that the printed bytes equal the reference layout, which is the compact token sequence plus whitespace outside strings; re-parsing a container is whole-document parsing and is outside the claim (composition argument, not a solver result).",
+	functions=["print::string_literal", "<SmallString as Parse>::parse_in", "<NumberBuf as Parse>::parse_in", "impl Print for Value (scalars)"],
+	bounds="strings <= 2 characters; numbers <= 6 characters / 8 fixed spellings",
+	outside=["re-parsing of containers (whole-document parsing)", "strings longer than 2 characters"],
+	stubs=[STUB_GROW], assumptions=["the round trip is the composition of two separately decided facts through the reference escaping esc()"],
+	harnesses=C04R + [dict(h, tier="quick") for h in C08S] + pick(C08H, ["c08_scalars_print_as_their_token"]) + pick(L3, names("l3_number_n", (3, 5)), ["l3_number_n8"]) + pick(L2, ["l2_bool_n5", "l2_null_n4"]),
+)
+PROPS["C13"]["harnesses"] = PROPS["C13"]["harnesses"] + pick(C08H, ["c08_scalars_print_as_their_token"])
